@@ -136,6 +136,26 @@ def run_case(doc, fmt, name, preexisting, fault, scratch):
                         return orig(data)
                 return W()
             patches.append(mock.patch("os.fdopen", count_fdopen))
+        if fault and fault[0] == "close":
+            # the flush inside close() fails (disk full): nothing of the buffer reaches the temp file
+            real_fdopen2 = os.fdopen
+
+            def close_fdopen(fd, *a, **k):
+                f = real_fdopen2(fd, *a, **k)
+                orig = f.write
+
+                class W:
+                    def __getattr__(self, n):
+                        return getattr(f, n)
+
+                    def write(self, data):
+                        writes[0] += 1
+                        return orig(data)
+
+                    def close(self):
+                        raise Boom("injected failure of the flush at close")
+                return W()
+            patches = [mock.patch("os.fdopen", close_fdopen)]
         if fault and fault[0] == "move":
             def boom_move(*a, **k):
                 raise Boom("injected move failure")
@@ -216,6 +236,7 @@ def run(tier, seed, log, model_runs=True, enlarged=False):
                 for pre in (False, True):
                     for d in (ds[:2] if tier == "thorough" else ds[:1]):
                         cases.append((d, fmt, name, pre, ("move",)))
+                        cases.append((d, fmt, name, pre, ("close",)))
                         for k in range(0, 4 if tier == "quick" else 8):
                             cases.append((d, fmt, name, pre, ("write", k)))
         for name in REFUSED:
@@ -280,7 +301,7 @@ def run(tier, seed, log, model_runs=True, enlarged=False):
         "evaluations": len(recs),
         "distinct_nontrivial": len({(r.get("name"), r.get("fmt"), r.get("preexisting"), str(r.get("fault"))) for r in recs if not r.get("refused")}),
         "rule": "file-write cases = format x file name (relative, nested, absolute, spaces, non-ASCII, '#', '?', ';', ':', file: URL) "
-                "x pre-existing destination or not x fault (none, the k-th write call of the stream, the final move); each runs "
+                "x pre-existing destination or not x fault (none, the k-th write call of the stream, the flush at close, the final move); each runs "
                 "in a scratch directory with its own temp directory; distinct = distinct (name, format, preexisting, fault)",
         "samples": recs[:2] + recs[-2:],
         "traces_validated_against_impl": len([r for r in recs if not r.get("fault")]) if model_runs else 0,
